@@ -29,7 +29,31 @@ def domain(tier):
     return out
 
 
-def export(dom):
+def forms(tier):
+    """The other legal ways of writing a size: sides left out (L_y, L_z default
+    to L_x), numpy integers, keyword arguments.  Each builds a code that must
+    be valid like any other."""
+    import numpy as np
+    out = []
+    for name in codes.CLASSES:
+        dim = codes.dimension(name)
+        cubic = [s_ for s_ in codes.sizes(name, 4 if dim == 2 else 3, max_n=200) if len(set(s_)) == 1]
+        full = codes.sizes(name, 4 if dim == 2 else 3, max_n=200)
+        for s_ in cubic[:2 if tier == 'quick' else 4]:
+            out.append((name, s_, 'L_x only', lambda c, s=s_: c(s[0])))
+            out.append((name, s_, 'numpy integers', lambda c, s=s_: c(*[np.int64(x) for x in s])))
+        if dim == 3:
+            for s_ in [x for x in full if x[2] == x[0] and x[1] != x[0]][:2]:
+                out.append((name, s_, 'L_z left out', lambda c, s=s_: c(s[0], s[1])))
+        names = ['L_x', 'L_y', 'L_z'][:dim]
+        for s_ in [x for x in full if len(set(x)) > 1][:2]:
+            out.append((name, s_, 'keyword arguments',
+                        lambda c, s=s_, nm=names: c(**dict(zip(nm, s)))))
+            out.append((name, s_, 'numpy integers', lambda c, s=s_: c(*[np.int32(x) for x in s])))
+    return out
+
+
+def export(dom, tier='quick'):
     recs = []
     for name, size, dname, kw in dom:
         lab = codes.label(name, size, dname, kw)
@@ -43,6 +67,20 @@ def export(dom):
         r['_label'] = lab
         r['_cost'] = (r['n'] + 1) * (len(r['stabs']) + 1)
         recs.append(r)
+    for name, size, form, make in forms(tier):
+        lab = f'{codes.label(name, size, None, None)} written as {form}'
+        try:
+            code = make(codes.cls(name))
+            r = codes.project(code)
+            if tuple(int(x) for x in code.size) != tuple(size):
+                r['raised'] = f'size is {tuple(code.size)} instead of {tuple(size)}'
+        except Exception as ex:
+            r = {'n': 0, 'k': 0, 'd': 0, 'stabs': [], 'lx': [], 'lz': [],
+                 'raised': repr(ex)[:200]}
+        r['id'] = len(recs)
+        r['_label'] = lab
+        r['_cost'] = (r['n'] + 1) * (len(r['stabs']) + 1)
+        recs.append(r)
     return recs
 
 
@@ -50,7 +88,7 @@ def run(tier):
     t0 = time.time()
     v = common.Verdict('C01')
     dom = domain(tier)
-    recs = export(dom)
+    recs = export(dom, tier)
     t_export = time.time() - t0
     raised = [r for r in recs if 'raised' in r]
     good = [r for r in recs if 'raised' not in r]
